@@ -238,13 +238,96 @@ func Value(t *rapid.T, b *strings.Builder, depth int) {
 func Doc(t *rapid.T, depth int) []byte {
 	var b strings.Builder
 	ws(t, &b)
-	if sim.Intn(t, 16, "bigdoc") == 15 {
+	if k := sim.Intn(t, 16, "bigdoc"); k == 15 {
 		Big(t, &b)
+	} else if k == 14 {
+		Sized(t, &b)
 	} else {
 		Value(t, &b, depth)
 	}
 	ws(t, &b)
 	return []byte(b.String())
+}
+
+// Sized writes a document one of whose dimensions - nesting depth, number of objects, number of elements or
+// members, string / key / number length - is exactly a power of two between 8 and 2048, or one less, or one more:
+// the sizes at which initial capacities, tables and pools of the code under test run out.
+func Sized(t *rapid.T, b *strings.Builder) {
+	n := (8 << uint(sim.Intn(t, 9, "pow"))) + sim.Intn(t, 3, "delta") - 1
+	switch sim.Intn(t, 8, "dim") {
+	case 0: // depth, arrays
+		b.WriteString(strings.Repeat("[", n))
+		b.WriteString("1")
+		b.WriteString(strings.Repeat("]", n))
+	case 1: // depth, objects and arrays alternating
+		for i := 0; i < n; i++ {
+			if i%2 == 0 {
+				b.WriteString(`{"a":`)
+			} else {
+				b.WriteString("[")
+			}
+		}
+		b.WriteString("null")
+		for i := n - 1; i >= 0; i-- {
+			if i%2 == 0 {
+				b.WriteString("}")
+			} else {
+				b.WriteString("]")
+			}
+		}
+	case 2: // number of objects in one document (the first and the last with members)
+		b.WriteByte('[')
+		for i := 0; i < n; i++ {
+			if i > 0 {
+				b.WriteByte(',')
+			}
+			if i == 0 || i == n-1 || i%5 == 0 {
+				fmt.Fprintf(b, `{"i":%d}`, i)
+			} else {
+				b.WriteString("{}")
+			}
+		}
+		b.WriteByte(']')
+	case 3: // number of elements
+		b.WriteByte('[')
+		for i := 0; i < n; i++ {
+			if i > 0 {
+				b.WriteByte(',')
+			}
+			fmt.Fprint(b, i%10)
+		}
+		b.WriteByte(']')
+	case 4: // number of members
+		b.WriteByte('{')
+		for i := 0; i < n; i++ {
+			if i > 0 {
+				b.WriteByte(',')
+			}
+			fmt.Fprintf(b, `"m%d":%d`, i, i%3)
+		}
+		b.WriteByte('}')
+	case 5: // string length (with an escape in front, or at the end, or none)
+		body := strings.Repeat("s", n)
+		switch sim.Intn(t, 3, "esc") {
+		case 1:
+			body = `\n` + body[min(2, len(body)):]
+		case 2:
+			body = body[:max(0, len(body)-6)] + `\u0041`
+		}
+		fmt.Fprintf(b, `["%s",1]`, body)
+	case 6: // key length
+		fmt.Fprintf(b, `{"%s":true,"b":[{"%s":null}]}`, strings.Repeat("k", n), strings.Repeat("q", n))
+	default: // number of digits (integer, fraction, or both)
+		d := strings.Repeat("7", min(n, 400))
+		switch sim.Intn(t, 3, "numpart") {
+		case 0:
+			fmt.Fprintf(b, `[%s]`, d)
+		case 1:
+			fmt.Fprintf(b, `[0.%s]`, d)
+		default:
+			fmt.Fprintf(b, `[%s.%se1]`, d, d)
+		}
+	}
 }
 
 // Big writes a deep, long-string or long-array document.
